@@ -422,6 +422,56 @@ def unalias(fn, known_names, wanted=None):
     return removed
 
 
+
+def restore_renamed_functions(tree, rec):
+    """A private function that the recorded tree has under another name (the
+    only one its scope lost, for the only one it gained, same parameter count)
+    gets its recorded name back, with every reference in the module.
+    -> {new name: recorded name}"""
+    known = rec.get('__functions__')
+    params = rec.get('__params__') or {}
+    if not known:
+        return {}
+    cur = dict(outer_functions(tree))
+    removed = set(known) - set(cur)
+    added = set(cur) - set(known)
+    by_scope = {}
+    for q in removed:
+        by_scope.setdefault(q.rpartition('.')[0], ([], []))[0].append(q)
+    for q in added:
+        by_scope.setdefault(q.rpartition('.')[0], ([], []))[1].append(q)
+    used = set()
+    for n in ast.walk(tree):
+        if isinstance(n, ast.Name):
+            used.add(n.id)
+        elif isinstance(n, ast.Attribute):
+            used.add(n.attr)
+    ren = {}
+    for scope, (rem, add) in by_scope.items():
+        if len(rem) != 1 or len(add) != 1:
+            continue
+        old = rem[0].rpartition('.')[2]
+        new = add[0].rpartition('.')[2]
+        if not (old.startswith('_') and new.startswith('_')) or (
+                old.endswith('__') or new.endswith('__')):
+            continue
+        if old in used or new in ren:
+            continue
+        if len(param_list(cur[add[0]])) != len(params.get(rem[0], [])):
+            continue
+        ren[new] = old
+    if not ren:
+        return ren
+    for n in ast.walk(tree):
+        if isinstance(n, FUNC) and n.name in ren:
+            n.name = ren[n.name]
+        elif isinstance(n, ast.Name) and n.id in ren:
+            n.id = ren[n.id]
+        elif isinstance(n, ast.Attribute) and n.attr in ren:
+            n.attr = ren[n.attr]
+    return ren
+
+
 def param_list(fn):
     a = fn.args
     out = [x.arg for x in getattr(a, 'posonlyargs', []) + a.args]
